@@ -726,7 +726,8 @@ C09_RecordedFirst ==
 \* no child is ever ahead of the revision recorded for it (checked in EVERY state, i.e. at every crash point)
 MaxOrd(vs) == CHOOSE m \in { expect.revOrder[v] : v \in vs } : \A v \in vs : expect.revOrder[v] <= m
 C09_NotAhead ==
-  (RollScn /\ HasE /\ E.ev \in {"Req", "SyncEnd", "Crash", "End", "SyncStart"})
+  \* (not in scenarios where somebody ELSE edits the children's content ahead of the rollout: expect.preset)
+  (RollScn /\ HasE /\ E.ev \in {"Req", "SyncEnd", "Crash", "End", "SyncStart"} /\ ~("preset" \in DOMAIN expect /\ expect.preset))
   => \A k \in DOMAIN store :
        (store[k].live /\ store[k].kind = "Thing" /\ store[k].ctrl = expect.parentUid /\ RevField \in DOMAIN store[k].fields
           /\ store[k].fields[RevField] \in DOMAIN expect.revOrder)
